@@ -112,6 +112,17 @@ def run(ctx, rep):
                             f"target['{k}'] is None when {opt} is off, yet it is used in {risky} with no guard: TypeError under that option")
     rep.floor('C09.R1', 'uses of nullable keys', nuse, 2)
 
+    R5 = rep.rule('C09.R5', 'closure rules score their own targets: MRO-resolved score_candidate / group_score of every closure rule class, '
+                            'folded on the target its _branch_target_hook builds, return a number')
+    from .. import search as _search
+    res, cons = _search.fold_closure_scoring(m, ctx.lgs)
+    rep.consult(*cons)
+    for ok, case, detail, where in res:
+        rep.instance(R5, ok=ok, nontrivial=case)
+        if not ok:
+            rep.finding(R5, f'C09.R5/{case}', where, case, detail)
+    rep.floor('C09.R5', 'closure rule scorers', len(res), 12)
+
     R2 = rep.rule('C09.R2', 'search options are read only in the reviewed choice functions, which return elements of their input')
     nread = 0
     for mod, qn, fn in astq.iter_functions(m):
